@@ -344,6 +344,44 @@ int main(void)
 			/* p.parse HEX | chunk sizes…   (p.lines: also the unfolded lines the parser acted upon) */
 			int bar = 2;
 			do_parse(toks[1], toks + (ntk > bar ? bar + 1 : ntk), ntk > bar + 1 ? ntk - bar - 1 : 0, 4, !strcmp(toks[0], "p.lines"));
+		} else if (!strcmp(toks[0], "r.match") && ntk >= 3) {
+			/* r.match RULE-TOKENS | i1 i2 … : the rule as a filter (echs_instant_matches_p, `echse unroll --filter'), one
+			 * answer per instant; the function keeps its whitelist in statics, so answers depend on what was asked before:
+			 * only looked at for memory errors */
+			int bar = 1; while (bar < ntk && strcmp(toks[bar], "|")) bar++;
+			struct rrulsp_s r = read_rule(toks + 1, bar - 1);
+			for (int i = bar + 1; i < ntk; i++) {
+				echs_instant_t x = {.u = strtoull(toks[i], NULL, 16)};
+				putchar(echs_instant_matches_p(&r, x) ? '1' : '0');
+			}
+			putchar('\n');
+		} else if (!strcmp(toks[0], "p.all") && ntk >= 2) {
+			/* p.all HEX : every task of the text is read first (whole buffer), then each one's attributes are dumped:
+			 * what a reader sees that keeps the tasks around, as the daemon does */
+			static char txt[1 << 20]; size_t len = 0;
+			for (char *h = toks[1]; h[0] && h[1] && len + 1 < sizeof(txt); h += 2) { unsigned v; sscanf(h, "%2x", &v); txt[len++] = (char)v; }
+			txt[len] = 0;
+			echs_task_t tt[64];
+			size_t nt = parse_tasks(txt, len, tt, 64);
+			for (size_t i = 0; i < nt; i++) { printf("%sS{", i ? " " : ""); dump_fields(tt[i]); printf("}"); }
+			putchar('\n');
+			for (size_t i = 0; i < nt; i++) free_echs_task(tt[i]);
+		} else if (!strcmp(toks[0], "e.rdat") && ntk >= 2) {
+			/* e.rdat DTSTART d1 d2 … : __make_evrdat() on the instants, the stream drained */
+			echs_event_t e = {.from = {.u = strtoull(toks[1], NULL, 16)}};
+			size_t nd = (size_t)(ntk - 2);
+			echs_instant_t *d = calloc(nd + 1, sizeof(*d));
+			for (size_t i = 0; i < nd; i++) d[i].u = strtoull(toks[2 + i], NULL, 16);
+			echs_evstrm_t s = __make_evrdat(e, d, nd, false);
+			int first = 1;
+			if (s != NULL) {
+				for (echs_event_t x; !echs_event_0_p(x = echs_evstrm_pop(s));) {
+					printf("%s%016llx", first ? "" : " ", (unsigned long long)x.from.u); first = 0;
+				}
+				free_echs_evstrm(s);
+			}
+			putchar('\n');
+			free(d);
 		} else if (!strcmp(toks[0], "p.occ") && ntk >= 3) {
 			/* p.occ HEX N : the calendar through the whole parser, N occurrences of every task (as p.parse, which gives 4) */
 			do_parse(toks[1], toks + ntk, 0, atoi(toks[2]), 0);
